@@ -1,60 +1,33 @@
 /-
   C19 — combining search criteria yields their intersection.  Property theorems only.
 
-  not yet proved (validated by the oracle on every run): `fold_keys`
-  (matchesC m (foldKeys ks) = matchesKeys m ks for keys without the inexpressible `SMALLER 0`)
-  and its corollary `perm_invariant`.
+  Proved here:
+    * `flat_and`, `matches_and` — `SearchCriteria.And` is intersection (repaired `Smaller` rule);
+      `legacy_and_counterexample` — the rule as shipped was not.
+    * `fold_keys` — the criteria built by the server's key parser from a key list select exactly
+      the messages satisfying every key (RFC meaning per key), for key lists satisfying `KeysOK`
+      (definition and the reason for each clause: Lemmas/SearchKeys.lean).
+    * `perm_invariant` — … in whatever order the keys are written.
+    * `smaller_zero_counterexample`, `larger_zero_counterexample`, `zero_date_counterexample` —
+      the `KeysOK` clauses cannot be dropped: `SMALLER 0` (known finding), `LARGER 0` on an empty
+      message and a date key carrying Go's zero time are not represented faithfully.
+
+  Not covered: nothing of the planned C19 statement is left out.  (Outside the model, as stated in
+  Model/Search.lean: `ModSeq`, and the textual parsing of keys into `Key` values.)
 -/
-import GoImap.Lemmas.Search
-import GoImap.Spec.Search
+import GoImap.Lemmas.SearchKeys
 namespace GoImap.C19
 open GoImap.Search GoImap.SearchSpec GoImap.SearchLemmas
 
 theorem flat_and (a b : Flat) (m : Msg) (hs : 0 ≤ m.size) :
-    flatMatches m (a.and b) = (flatMatches m a && flatMatches m b) := by
-  simp only [flatMatches, Flat.and, List.all_append, matchBytes_append]
-  rw [sent_and, larger_and _ _ _ hs, smaller_and, date_and]
-  generalize (a.seqSets.all fun s => m.seq ≠ 0 && NumSet.contains s m.seq) = q1
-  generalize (b.seqSets.all fun s => m.seq ≠ 0 && NumSet.contains s m.seq) = q2
-  generalize (a.uidSets.all fun s => NumSet.contains s m.uid) = u1
-  generalize (b.uidSets.all fun s => NumSet.contains s m.uid) = u2
-  generalize matchDate m.day a.since a.before = d1
-  generalize matchDate m.day b.since b.before = d2
-  generalize (a.flags.all fun fl => m.flags.contains (lower fl)) = f1
-  generalize (b.flags.all fun fl => m.flags.contains (lower fl)) = f2
-  generalize (a.notFlags.all fun fl => !m.flags.contains (lower fl)) = n1
-  generalize (b.notFlags.all fun fl => !m.flags.contains (lower fl)) = n2
-  generalize okLarger a.larger m.size = l1
-  generalize okLarger b.larger m.size = l2
-  generalize okSmaller a.smaller m.size = s1
-  generalize okSmaller b.smaller m.size = s2
-  generalize matchBytes m.buf a.text = t1
-  generalize matchBytes m.buf b.text = t2
-  generalize (a.header.all (hdrMatch m)) = h1
-  generalize (b.header.all (hdrMatch m)) = h2
-  generalize sentOk m a.sentSince a.sentBefore = e1
-  generalize sentOk m b.sentSince b.sentBefore = e2
-  generalize matchBytes m.body a.body = y1
-  generalize matchBytes m.body b.body = y2
-  cases q1 <;> cases q2 <;> simp <;> cases u1 <;> cases u2 <;> simp <;> cases d1 <;> cases d2 <;> simp <;>
-    cases f1 <;> cases f2 <;> simp <;> cases n1 <;> cases n2 <;> simp <;> cases l1 <;> cases l2 <;> simp <;>
-    cases s1 <;> cases s2 <;> simp <;> cases t1 <;> cases t2 <;> simp <;> cases h1 <;> cases h2 <;> simp <;>
-    cases e1 <;> cases e2 <;> simp
+    flatMatches m (a.and b) = (flatMatches m a && flatMatches m b) :=
+  flatMatches_and a b m hs
 
 /-- `And` is intersection: for every pair of criteria (all fields, arbitrary NOT/OR sub-trees) and
     every message of non-negative size, the combined criteria match exactly when both operands do -/
 theorem matches_and (a b : Crit) (m : Msg) (hs : 0 ≤ m.size) :
-    matchesC m (a.and b) = (matchesC m a && matchesC m b) := by
-  obtain ⟨fa, na, oa⟩ := a
-  obtain ⟨fb, nb, ob⟩ := b
-  simp only [Crit.and, matchesC, flat_and _ _ _ hs, noneMatch_append, allOr_append]
-  generalize flatMatches m fa = x1
-  generalize flatMatches m fb = x2
-  generalize noneMatch m na = y1
-  generalize noneMatch m nb = y2
-  generalize allOr m oa = z1
-  generalize allOr m ob = z2
-  cases x1 <;> cases x2 <;> cases y1 <;> cases y2 <;> cases z1 <;> cases z2 <;> rfl
+    matchesC m (a.and b) = (matchesC m a && matchesC m b) :=
+  matchesC_and a b m hs
 
 /-- the hypothesis is met by every real message and the statement is not vacuous -/
 example : (0 : Int) ≤ (mkMsg 5).size ∧ matchesC (mkMsg 5) ((Crit.mk { smaller := 100 } .nil .nil).and (Crit.mk { larger := 3 } .nil .nil)) = true := by
@@ -71,5 +44,55 @@ theorem legacy_and_counterexample :
     (by decide)
   revert this
   decide
+
+/-! ### multi-key SEARCH -/
+
+/-- the criteria the server builds from a list of search keys match a message exactly when the
+    message satisfies every key, for well-formed keys (`KeysOK`: no `SMALLER 0`, no zero-time date,
+    `LARGER 0` only on non-empty messages) -/
+theorem fold_keys (m : Msg) (hs : 0 ≤ m.size) (ks : KeyList) (hok : KeysOK m.size ks = true) :
+    matchesC m (foldKeys ks) = matchesKeys m ks :=
+  foldKeys_matches m hs ks hok
+
+/-- writing the same keys in another order selects the same messages (well-formedness is needed
+    for one of the two lists only: it is itself order-independent) -/
+theorem perm_invariant (ks₁ ks₂ : KeyList) (hp : KeysPerm ks₁ ks₂) (m : Msg) (hs : 0 ≤ m.size)
+    (hok : KeysOK m.size ks₁ = true) :
+    matchesC m (foldKeys ks₁) = matchesC m (foldKeys ks₂) := by
+  have hok₂ : KeysOK m.size ks₂ = true := by rw [← keysOK_perm m.size ks₁ ks₂ hp]; exact hok
+  rw [fold_keys m hs ks₁ hok, fold_keys m hs ks₂ hok₂, matchesKeys_perm m ks₁ ks₂ hp]
+
+/-- known finding, machine-checked: `SEARCH SMALLER 0` must match nothing, but the server's criteria
+    cannot express it (0 = unset) and match everything — so `fold_keys` is false without `KeysOK` -/
+theorem smaller_zero_counterexample :
+    ∃ m : Msg, 0 ≤ m.size ∧ matchesC m (foldKeys (.cons (.smaller 0) .nil)) = true
+      ∧ matchesKeys m (.cons (.smaller 0) .nil) = false :=
+  ⟨mkMsg 0, by decide⟩
+
+/-- `LARGER 0` on an empty (0-byte) message: RFC says no match, the criteria say match -/
+theorem larger_zero_counterexample :
+    ∃ m : Msg, 0 ≤ m.size ∧ matchesC m (foldKeys (.cons (.larger 0) .nil)) = true
+      ∧ matchesKeys m (.cons (.larger 0) .nil) = false :=
+  ⟨{ mkMsg 0 with size := 0 }, by decide⟩
+
+/-- a date key carrying Go's zero time is dropped: `BEFORE <zero time>` matches every message -/
+theorem zero_date_counterexample :
+    ∃ m : Msg, 0 ≤ m.size ∧ matchesC m (foldKeys (.cons (.before 0) .nil)) = true
+      ∧ matchesKeys m (.cons (.before 0) .nil) = false :=
+  ⟨mkMsg 0, by decide⟩
+
+/-! non-vacuity: a five-key list (date, size, NOT, OR, ON inside a group) is well-formed, and both
+    sides of `fold_keys` are `true` on message 5 of the universe (and `false` on message 0) -/
+
+def sampleKeys : KeyList :=
+  .cons (.since D0) (.cons (.larger 3) (.cons (.not (.flag (s "\\Deleted")))
+    (.cons (.or (.smaller 10) (.text (s "LOREM"))) (.cons (.group (.cons (.on (D0 + 86400)) .nil)) .nil))))
+
+example : mkMsg 5 ∈ msgUniverse := List.mem_map.mpr ⟨5, List.mem_range.mpr (by decide), rfl⟩
+example : KeysOK (mkMsg 5).size sampleKeys = true := by decide
+example : 0 ≤ (mkMsg 5).size ∧ matchesC (mkMsg 5) (foldKeys sampleKeys) = true
+    ∧ matchesKeys (mkMsg 5) sampleKeys = true := by decide
+example : KeysOK (mkMsg 0).size sampleKeys = true ∧ matchesC (mkMsg 0) (foldKeys sampleKeys) = false
+    ∧ matchesKeys (mkMsg 0) sampleKeys = false := by decide
 
 end GoImap.C19
